@@ -163,6 +163,38 @@ def check_case(rep, c: dict):
         rep.add("drift_keys_unobservable")
 
 
+def ignored_condition(rep: Report):
+    """An unconditional distribution has an empty condition-batch shape whatever is passed as `condition` (composites hand
+    their condition down to unconditional parts): same shapes and, for the same key, the same values as without it."""
+    import jax.numpy as jnp
+    import jax.random as jr
+    import numpy as np
+    from flowjax import bijections as bj
+    from flowjax import distributions as ds
+    k = jr.PRNGKey(11)
+    dists = {"Normal((2,))": ds.Normal(jnp.zeros(2)), "StandardNormal((2, 3))": ds.StandardNormal((2, 3)), "Normal(())": ds.Normal(0.5, 2.0),
+             "Transformed(Normal, Exp)": ds.Transformed(ds.Normal(jnp.zeros(2)), bj.Exp((2,)))}
+    for name, d in dists.items():
+        for cshape in ((), (3,), (5, 3), (1, 1)):
+            c = jnp.ones(cshape) * 0.3
+            for ss in ((), (4,), (2, 3)):
+                rep.count(1, ("ignored-condition", name, cshape, ss))
+                try:
+                    a, b = d.sample(k, ss), d.sample(k, ss, c)
+                    (sa, la), (sb, lb) = d.sample_and_log_prob(k, ss), d.sample_and_log_prob(k, ss, c)
+                    pa, pb = d.log_prob(a), d.log_prob(a, c)
+                except Exception as e:  # noqa: BLE001
+                    rep.violation({"dist": name, "condition": list(cshape), "sample_shape": list(ss), "error": type(e).__name__},
+                                  f"{name} (unconditional) with a condition of shape {cshape}, sample_shape {ss}: {type(e).__name__}: {str(e)[:160]}")
+                    continue
+                for what, u, v in (("sample", a, b), ("sample_and_log_prob sample", sa, sb), ("sample_and_log_prob log-prob", la, lb), ("log_prob", pa, pb)):
+                    if np.shape(u) != np.shape(v) or not np.array_equal(np.asarray(u), np.asarray(v)):
+                        rep.violation({"dist": name, "condition": list(cshape), "sample_shape": list(ss), "what": what},
+                                      f"{name} is unconditional; {what} with sample_shape {ss}: shape {np.shape(u)} without a condition, "
+                                      f"{np.shape(v)} (values {'equal' if np.shape(u) == np.shape(v) else 'n/a'}) when a condition of shape {cshape} is passed")
+                        break
+
+
 def main():
     ap = argparse.ArgumentParser()
     ap.add_argument("--replay")
@@ -201,6 +233,7 @@ def main():
     rep.set("traces_validated_against_impl", 0)
     rep.set("configurations_replayed", len(picked))
     rep.set("exhaustive", len(picked) == len(cases))
+    ignored_condition(rep)
     rep.set("rule", "one case per (event shape, condition shape, x batch, condition batch, sample_shape) printed by TLC; "
                     "non-trivial = more than one output element and the index map is not constant")
     rep.assume("unbatched reference values come from the same distribution's public methods called with exact shapes")
